@@ -691,7 +691,7 @@ func (x *Exec) site(cls, text string) string {
 func (x *Exec) oblige(s *State, cls, site string, pos token.Pos, cond *Term, inputs []*Term) {
 	name := x.Prefix + "/" + cls + "/" + x.site(cls, site)
 	parts := []*Term{cond}
-	if cond.op == "and" && (strings.HasPrefix(cls, "pre:") || strings.HasPrefix(cls, "inv-")) {
+	if cond.op == "and" && (strings.HasPrefix(cls, "pre:") || strings.HasPrefix(cls, "inv-") || (x.lite && strings.HasPrefix(cls, "post:"))) {
 		parts = cond.args
 	}
 	for i, c := range parts {
